@@ -10,15 +10,23 @@
 
 //@ prelude
 #include "../matvec_index/matvec_spec.h"
-#include <string.h>
 int gv_exc;
 Index gv_k0;
-/* std::memcpy: the C++ code calls memcpy(rep, x.rep, 0) with null pointers for empty objects.  C23 still calls that
-   undefined, C2y (N3322) and every implementation define it as a no-op; modelled as such (listed in assumptions). */
+/* std::memcpy -- stub of the libc callee with its ASSUMED contract (trusted base), ghost-index form:
+   requires both regions valid for n bytes and not overlapping (asserted); the destination region is havocked and
+   "for all i: dst[i] == src[i]" is instantiated at the harness-chosen ghost element gv_k0.
+   (CBMC's built-in memcpy model -- a variable-length array_copy -- errors out on symbolic sizes up to 16 GB.)
+   The C++ code calls memcpy(rep, x.rep, 0) with null pointers for empty objects.  C23 still calls that undefined,
+   C2y (N3322) and every implementation define it as a no-op; modelled as such (listed in assumptions). */
 static inline void gv_memcpy(void *d, const void *s, size_t n)
 {
   if (n == 0) return;
-  memcpy(d, s, n);
+  __CPROVER_assert(__CPROVER_r_ok(s, n), "memcpy: source region readable");
+  __CPROVER_assert(__CPROVER_w_ok(d, n), "memcpy: destination region writable");
+  __CPROVER_assert(!SAME(d, s), "memcpy: regions do not overlap (different objects)");
+  __CPROVER_havoc_slice(d, n);
+  if (0 <= gv_k0 && ((size_t)gv_k0 + 1) * sizeof(Float) <= n)
+    __CPROVER_assume(MV_SAMEVAL(((Float *)d)[gv_k0], ((const Float *)s)[gv_k0]));
 }
 #define OWNED(p, n) (__CPROVER_DYNAMIC_OBJECT(p) && OFF(p) == 0 && __CPROVER_OBJECT_SIZE(p) == (size_t)(n) * sizeof(Float) && \
                      __CPROVER_rw_ok((p), (size_t)(n) * sizeof(Float)))
